@@ -1,7 +1,7 @@
 """C01 - every symbol decodes back to exactly the content that was given.
 
 Five exhaustive families (DESIGN.md section 5): all byte strings of length <= 2, all strings of length <= n over a
-16-symbol class alphabet, all option vectors with <= k deviations from the defaults on 12 contents, the capacity
+18-symbol class alphabet, all option vectors with <= k deviations from the defaults on 12 contents, the capacity
 sweep over every (version, level, mode), all sequences of <= 3 parts from a 12-part menu."""
 import itertools
 
@@ -13,7 +13,7 @@ ID = 'C01'
 LEVEL = 'exploration'
 TITLE = 'Every symbol decodes back to exactly the content that was given'
 RULE = ('bounded-exhaustive: (1) all byte strings of length 0..2 [quick: all of length <= 1 and the 44x44 class-boundary pairs], '
-        '(2) all strings of length <= n over a 16-character class alphabet, (3) all option vectors with <= k deviations from the '
+        '(2) all strings of length <= n over an 18-character class alphabet, (3) all option vectors with <= k deviations from the '
         'defaults on 12 representative contents, (4) longest-fitting / one-shorter / length-1 content for every (version, level, mode), '
         '(5) all sequences of <= 3 parts from a 12-part menu x micro x eci, (6) byte parts in 2-3 different encodings with eci=True around every capacity, all 45^2 alphanumeric pairs and all 1000 digit triples; every returned symbol is decoded by qrref and the payload '
         'bytes and ECI headers compared with the statement. Non-trivial = a symbol was returned and decoded; distinct = distinct call.')
@@ -26,7 +26,7 @@ CHUNK = 24
 BOUNDARY = [0x00, 0x1f, 0x20, 0x24, 0x25, 0x2a, 0x2b, 0x2d, 0x2e, 0x2f, 0x30, 0x39, 0x3a, 0x3f, 0x40, 0x41, 0x5a, 0x5b, 0x60,
             0x61, 0x7a, 0x7e, 0x7f, 0x80, 0x81, 0x9f, 0xa0, 0xa1, 0xaa, 0xaf, 0xb0, 0xdf, 0xe0, 0xea, 0xeb, 0xec, 0xf7, 0xfa,
             0xfc, 0xfd, 0xfe, 0xff, 0x0a, 0x98]
-ALPHA = ['0', '9', 'A', 'Z', ' ', ':', 'a', '\xe9', 'ｱ', '点', '漢', 'д', '€', '书', '\x00', '\n']
+ALPHA = ['0', '9', 'A', 'Z', ' ', ':', 'a', '\xe9', 'ｱ', '点', '漢', 'д', '€', '书', '\x00', '\n', '①', '‾']   # last two: cp932-only / Shift-JIS-only
 
 REP_CONTENTS = ['0123456789', 'HELLO WORLD', 'hello world', 'h\xe9llo', '点漢', '€ uro', '书读', 42,
                 b'\x00\xff\x80', b'\x93\x5f\xe4\xaa', ('12', 'AB', 'cd'), (('点', 8), ('x', 4, 'utf-8'), 7)]
